@@ -574,6 +574,8 @@ def check(run):
     _ply_layout(run, ix, tb)
     from ..svgarc import sweep_rule
     sweep_rule(run, ix, "R11", "C08")
+    from ..memostore import memo_store_rule
+    memo_store_rule(run, ix, "R12", "C08", module_filter=lambda m: "exchange" in m, floor=0)
     return {
         "explanation": "Interprocedural write-effect analysis of every exporter entry point (nothing rooted at the exported object is written); "
         "constant-table extraction of exporter / loader registries and of the PLY, glTF and DXF type tables (pairing, mutual inverses, "
